@@ -80,7 +80,9 @@ def tripped_latch(ctx, repo, rule="C30.D2-tripped-follows-decision"):
     for t in tests:
         starts = [v for v, lab in g.succ[t] if lab == "T"]
         w = g.must_pass(starts, lambda n: n.kind == "stmt" and isinstance(n.stmt, ast.Assign) and any(A.chain(x) == "self._tripped" for x in n.stmt.targets)
-                        and isinstance(n.stmt.value, ast.Constant) and n.stmt.value.value is True)
+                        and isinstance(n.stmt.value, ast.Constant) and n.stmt.value.value is True,
+                        # a failing `assert` states a belief about the caller (the lock is held), it is not a way the branch is left in operation
+                        edge_ok=lambda u, v, lab: not (lab == "F" and isinstance(g.nodes[u].stmt, ast.Assert)))
         ctx.ob(rule, cname(call, None, "every exit of the suspend branch (raising ones too) has set the latch"), w is None,
                "" if w is None else "the suspend branch can be left - e.g. by the RuntimeError when the event cannot be created in time - without the suspender being marked "
                "tripped: the signal is in the suspend condition but the next plan is not held", nontrivial=True, witness=w[-6:] if w else None, where=where(call, g.nodes[t].stmt))
@@ -246,7 +248,7 @@ CLAIM = {
     "text": "For the threshold and band suspenders the suspend / resume predicates only compare their arguments, so they are evaluated exhaustively "
             "on every weak ordering of (value, thresholds) admitted by the constructor's validation and shown equal to the documented conditions, "
             "never both true, and complementary at equal thresholds; boolean / changed-value suspenders are checked on their truth tables; the "
-            "tripped flag follows the decision branches; None defaults are tested with `is None` (falsy thresholds honoured). NaN and signal "
+            "tripped flag follows the decision branches and is set on every exit of the suspend branch, raising ones included; None defaults are tested with `is None` (falsy thresholds honoured). NaN and signal "
             "delivery are outside the model.",
     "technique": "order-type evaluation (all weak orderings of the compared symbols) of the predicate ASTs; guard dominance; None-vs-falsy lint",
     "note": "Model: values are totally ordered (no NaN); self._op is the operator returned by the class's _op property.",
@@ -270,5 +272,6 @@ MUTANTS = [
     ("changed-value resumes regardless of allow_resume", [(S, "        return self.allow_resume and value == self.expected_value", "        return value == self.expected_value")], "C30.D1"),
 ]
 BENIGN = [
+    ("an assertion about the lock in front of the latch", [(S, "                self._tripped = True\n                # this does dirty things with internal state\n", "                assert self._lock.locked()\n                self._tripped = True\n                # this does dirty things with internal state\n")]),
     ("release announced only when tripped", [("suspenders.py", "            elif self._should_resume(value):", "            elif self._tripped and self._should_resume(value):")]),
 ]
